@@ -463,7 +463,9 @@ func (m *ModuleInstance) resolveImports(ctx context.Context, module *Module) (er
 					return
 				}
 
-				if expected.Min > importedTable.Min {
+				// The external type of a table has its current size as the minimum (as done for memories below):
+				// a table that has grown beyond its declared minimum satisfies a larger import minimum.
+				if expected.Min > importedTable.Min && expected.Min > uint32(len(importedTable.References)) {
 					err = errorMinSizeMismatch(i, expected.Min, importedTable.Min)
 					return
 				}
